@@ -1,4 +1,6 @@
-(* Engine Chan: NoStrand for the class that excludes the recorded findings:
+(* Engine Chan: the counting invariant of the strict single-outstanding class (used for the
+   progress form and the receiver-side theorem; NoStrand itself is proved for every policy in
+   PMpscAll.v).  Originally: NoStrand for the class that excludes the recorded findings:
    strict executor (tasks polled only when woken, senders dropped only when finished) and
    one outstanding send per task.  Explicit inductive invariant over all label sequences. *)
 From Coq Require Import List Arith Bool NArith Lia.
@@ -340,44 +342,24 @@ Proof.
       * apply (i_closed s I).
       * intros H. try rewrite RD in H. discriminate.
       * apply (i_shape s I).
-  - destruct (sw s) as [|t r] eqn:SW; inversion St; subst; clear St.
-    + (* Some, nobody to wake *)
-      constructor; cbn.
-      * constructor.
-      * intros t [].
-      * intros t Ht Wt. pose proof (i_parked_sw s I t Ht Wt) as H. rewrite SW in H. exact H.
-      * intros _ H. discriminate.
-      * intros c Ec. destruct (i_cap s I c Ec) as [A [B K]]. rewrite Bf in B. cbn in B.
-        repeat split; try lia. intro H. contradiction.
-      * reflexivity.
-      * reflexivity.
-      * intros H. try rewrite RD in H. discriminate.
-      * apply (i_shape s I).
-    + (* Some, pop the last registered waker *)
-      pose proof (i_nodup s I) as ND. rewrite SW in ND. inversion ND as [|? ? NIn ND']; subst.
-      destruct (i_sw_parked s I t) as [Lt Wt]; [rewrite SW; left; reflexivity|].
-      constructor; cbn.
-      * exact ND'.
-      * intros u Hu. assert (u <> t) by (intro; subst; contradiction).
-        rewrite wake1, upd_other by assumption. apply (i_sw_parked s I). rewrite SW. right. exact Hu.
-      * intros u Hu Wu. rewrite wake1 in Wu. destruct (Nat.eq_dec u t) as [->|Ne].
-        -- rewrite upd_same, waiting_set_woken in Wu. discriminate.
-        -- rewrite upd_other in Wu by assumption.
-           pose proof (i_parked_sw s I u Hu Wu) as H. rewrite SW in H. destruct H as [->|H]; [contradiction|exact H].
-      * intros _ H. discriminate.
-      * intros c Ec. destruct (i_cap s I c Ec) as [A [B K]]. rewrite Bf in B, K. cbn [length] in B, K.
-        repeat split; try lia. intros _.
-        assert (K' : c - S (length b') <= count eager (ntasks s) (tasks s)) by (apply K; rewrite SW; discriminate).
-        rewrite (count_ext eager (ntasks s) (wake_tasks [WSend t] (tasks s))
-                   (upd (tasks s) t (set_woken (tasks s t)))) by (intros i _; rewrite wake1; reflexivity).
-        pose proof (count_upd eager (ntasks s) (tasks s) t (set_woken (tasks s t)) Lt) as CU.
-        rewrite (waiting_not_eager _ Wt), (eager_set_woken _ Wt) in CU. cbn [b2n] in CU. lia.
-      * intros Ec. pose proof (i_unb s I Ec) as H. rewrite SW in H. discriminate.
-      * intros H. pose proof (i_closed s I H) as H'. rewrite SW in H'. discriminate.
-      * intros H. try rewrite RD in H. discriminate.
-      * intros u Hu. rewrite wake1. destruct (Nat.eq_dec u t) as [->|Ne].
-        -- rewrite upd_same. apply shape_set_woken. apply (i_shape s I). exact Hu.
-        -- rewrite upd_other by assumption. apply (i_shape s I). exact Hu.
+  - (* Some: every registered sender is woken, the stack is emptied *)
+    inversion St; subst; clear St.
+    constructor; cbn.
+    + constructor.
+    + intros t [].
+    + intros u Hu W. destruct (in_dec Nat.eq_dec u (rev (sw s))) as [H|H].
+      * rewrite wake_all_in, waiting_set_woken in W by assumption. discriminate.
+      * rewrite wake_all_notin in W by assumption. exfalso. apply H. apply in_rev.
+        rewrite rev_involutive. apply (i_parked_sw s I); assumption.
+    + intros _ H. discriminate.
+    + intros c Ec. destruct (i_cap s I c Ec) as [A [B K]]. rewrite Bf in B. cbn in B.
+      repeat split; try lia. intro H. contradiction.
+    + reflexivity.
+    + reflexivity.
+    + intros H. try rewrite RD in H. discriminate.
+    + intros u Hu. destruct (wake_all_cases (rev (sw s)) (tasks s) u) as [-> | ->].
+      * apply shape_set_woken. apply (i_shape s I). exact Hu.
+      * apply (i_shape s I). exact Hu.
 Qed.
 
 Lemma inv_dropsender : forall s t s' o, Inv s -> step strict s (DropSender t) = Some (s', o) -> Inv s'.
